@@ -16,6 +16,9 @@ impl EpochNumberWithFraction {
     pub fn index(&self) -> (r: u64) ensures r == self.spec_index(), r <= 0xffff { unimplemented!() }
     #[verifier::external_body]
     pub fn length(&self) -> (r: u64) ensures r == self.spec_length(), r <= 0xffff { unimplemented!() }
+    #[verifier::external_body]
+    pub fn is_well_formed(&self) -> (r: bool)
+        ensures r == (self.spec_length() > 0 && self.spec_length() > self.spec_index()) { unimplemented!() }
 }
 // compact target -> block difficulty: uninterpreted total function
 pub uninterp spec fn spec_compact_to_difficulty(compact: u32) -> nat;
